@@ -420,6 +420,11 @@ func (table *Table) Del(primaryKey []byte) error {
 	//copy row
 	delrow := *row
 	delrow.Ty = Del
+	if incache {
+		//a pending update: what is stored (data and index entries) is the old data
+		delrow.Data = row.old
+		delrow.old = nil
+	}
 	table.addRowCache(&delrow)
 	return nil
 }
